@@ -477,6 +477,13 @@ func c11Generate(r *verifh.Run) []string {
 		"exec 8 a-9223372036854775058 0 p n",
 		"seq 0 syn 100 750 0 100 750 " + be(7) + " " + be(1<<63-1) + " e",
 		"exec 8 n0 0 p n",
+		// child timestamp near MinInt64 on a positive parent timestamp (a subtraction
+		// `child - parent` would wrap; the code adds `parent + gap`)
+		"seq 0 syn 100 750 0 100 750 " + be(7) + " " + be(4000) + " e",
+		"exec 8 a-9223372036854775807 0 p n",
+		"exec 8 a-9223372036854775808 v p n",
+		"exec 8 a4750 0 p n",
+		"exec 9 a-9223372036854775807 0 p n",
 		// rules switch with the *block's* timestamp; negative and zero gaps
 		"seq 0 syn 100 750 5000 10 20 " + be(3) + " " + be(4000) + " e",
 		"exec 4 a4750 0 p n",
